@@ -6,6 +6,7 @@ import (
 	"errors"
 	"fmt"
 	"hash"
+	"io"
 	"os"
 	"os/exec"
 	"path/filepath"
@@ -166,6 +167,29 @@ func c04RunOnce(tree *h.Tree, dstDir string, c *c04Case, f *c04Fault) *c04Run {
 				}
 				return nil
 			}
+		case "S.eof":
+			// the peer died right before its K-th packet got through, and the
+			// transport reports that as a clean end of stream (what a byte stream
+			// does when the other process is killed)
+			p.S.InsteadOfRecv = func(n int, _ *types.Packet) error {
+				if n == f.K {
+					fire()
+					p.S.Break(io.EOF)
+					p.R.Break(errInjected)
+					return io.EOF
+				}
+				return nil
+			}
+		case "R.eof":
+			p.R.InsteadOfRecv = func(n int, _ *types.Packet) error {
+				if n == f.K {
+					fire()
+					p.R.Break(io.EOF)
+					p.S.Break(errInjected)
+					return io.EOF
+				}
+				return nil
+			}
 		case "R.send":
 			p.R.BeforeSend = func(n int, _ *types.Packet) error {
 				if n == f.K {
@@ -280,6 +304,8 @@ func c04Check(env *h.Env, c *c04Case) error {
 		add("S.recv", cnt.RecvS+1)
 		add("R.send", cnt.SendR+1)
 		add("R.recv", cnt.RecvR+1)
+		add("S.eof", cnt.RecvS)
+		add("R.eof", cnt.RecvR)
 		add("S.cancel", cnt.SendS)
 		add("R.cancel", cnt.RecvR)
 		add("walk", cnt.Walk)
